@@ -43,6 +43,33 @@ TIME_CARRIERS = [
 ]
 
 
+import contextlib  # noqa: E402
+import signal  # noqa: E402
+
+
+class CalleeTimeout(Exception):
+    """The code under test did not return within the per-call limit."""
+
+
+@contextlib.contextmanager
+def time_limit(seconds=float(os.environ.get("VERIF_CALL_TIMEOUT", "30"))):
+    """Bound one call into the code under test (a mutated callee that hangs must become an
+    observation, not a hung check)."""
+    def handler(signum, frame):
+        raise CalleeTimeout(f"no result after {seconds} s")
+    try:
+        old = signal.signal(signal.SIGALRM, handler)
+    except ValueError:          # not in the main thread
+        yield
+        return
+    signal.setitimer(signal.ITIMER_REAL, seconds)
+    try:
+        yield
+    finally:
+        signal.setitimer(signal.ITIMER_REAL, 0)
+        signal.signal(signal.SIGALRM, old)
+
+
 def f2float(x):
     return float("nan") if x is None else float(x)
 
@@ -324,7 +351,7 @@ def observe(case, carrier="nd_f8", tcarrier="dt64ns", span_kind="list"):
         f, kw = build_call(case, carrier, tcarrier, span_kind)
         with warnings.catch_warnings():
             warnings.simplefilter("ignore")
-            with np.errstate(all="ignore"):
+            with np.errstate(all="ignore"), time_limit():
                 res = f(**kw)
         return canon_result(res)
     except Exception as e:  # noqa: BLE001
